@@ -157,7 +157,12 @@ func (_this *cteListener) ExitVersion(ctx *parser.VersionContext) {
 		panic(fmt.Errorf("expected a version string"))
 	}
 	versionStr = versionStr[1:]
-	_this.eventReceiver.OnVersion(parseSmallUint(versionStr))
+	version := parseSmallUint(versionStr)
+	// TODO: Remove this when releasing V1 (same as the CBE decoder)
+	if version == 1 {
+		version = 0
+	}
+	_this.eventReceiver.OnVersion(version)
 }
 
 func (_this *cteListener) ExitValueNull(ctx *parser.ValueNullContext) {
